@@ -158,7 +158,10 @@ def absBMS (j : Json) : Except String Json := do
     let why := (if dataLines.all BMS.lineValid then [] else ["a data line is not #mmmcc: + an even number of base-36 characters"])
     .ok (result [ofBMS d] why
       [("grid_compatible", Json.bool (gridCompatible g d.tempo)),
-       ("header_texts_present", Json.bool (d.header.title.isSome && d.header.artist.isSome && d.header.version.isSome)),
+       ("header_texts_present", Json.bool (match BMS.parseDoc lines with
+          | .ok dd => (BMS.dictGet? dd.header "TITLE".toList).isSome && (BMS.dictGet? dd.header "ARTIST".toList).isSome &&
+                      (BMS.dictGet? dd.header "PLAYLEVEL".toList).isSome
+          | .error _ => false)),
        ("resnap_stable", Json.bool (C04.resnapStable defaultGrid d.tempo)),
        ("lanes_ordered", Json.bool (C04.lanesOrdered lay notes)),
        ("d05", Json.bool (C04.d05Pred lay lnobj notes)),
